@@ -451,6 +451,29 @@ func (fc *fctx) genStmts(n int) ([]*Stmt, bool) {
 	for k := 0; k < n; k++ {
 		noJump := len(fc.liveRes()) > 0
 		switch c := g.r.Intn(100); {
+		case g.r.Chance(1, 11): // guard / guard let with an else block that exits
+			els := fc.exitBlock(noJump)
+			if els == nil {
+				continue
+			}
+			if g.r.Bool() {
+				cond := fc.genExact(tBool, 2)
+				if g.r.Chance(1, 3) {
+					cond = &Expr{Op: "bool", B: false, Typ: tBool}
+				}
+				out = append(out, &Stmt{Op: "guard", E: cond, B1: els})
+			} else {
+				u := g.randType(1)
+				var e *Expr
+				if g.r.Chance(1, 2) { // the nil branch must be reached at run time
+					e = &Expr{Op: "cast", K: "as", A: &Expr{Op: "nil", Typ: tOpt(tNever)}, T: tOpt(u), Typ: tOpt(u)}
+				} else {
+					e = fc.genExact(tOpt(u), 2)
+				}
+				v := fc.push(u)
+				fc.prot[v] = true
+				out = append(out, &Stmt{Op: "guardlet", E: e, V: v, B1: els})
+			}
 		case c < 26: // let
 			t := g.randType(2)
 			var ann *Ty
@@ -563,7 +586,7 @@ func (fc *fctx) genStmts(n int) ([]*Stmt, bool) {
 		case c < 89 && fc.nested > 0 && !noJump:
 			out = append(out, &Stmt{Op: "expr", E: &Expr{Op: "panic", Typ: tNever}})
 			return out, true
-		case c < 96 && fc.nested == 0: // resource life cycle at the top level of the function body
+		case c < 94 && fc.nested == 0: // resource life cycle at the top level of the function body
 			out = append(out, fc.genResourceStmt()...)
 		default: // call statement / variable initialised by a call
 			for j := fc.fi + 1; j < len(g.p.Funs); j++ {
@@ -586,6 +609,42 @@ func (fc *fctx) genStmts(n int) ([]*Stmt, bool) {
 		}
 	}
 	return out, false
+}
+
+// exitBlock: a block that definitely exits (for the else of a guard): a few statements followed by
+// return / break / continue / panic, or an if/else whose branches both exit
+func (fc *fctx) exitBlock(noJump bool) []*Stmt {
+	g := fc.g
+	exit := func() []*Stmt {
+		var kinds []string
+		kinds = append(kinds, "panic")
+		if !noJump {
+			kinds = append(kinds, "return", "return")
+			if fc.inLoop {
+				kinds = append(kinds, "break", "continue", "break", "continue")
+			}
+		}
+		switch lib.Pick(g.r, kinds) {
+		case "panic":
+			return []*Stmt{{Op: "expr", E: &Expr{Op: "panic", Typ: tNever}}}
+		case "break":
+			return []*Stmt{{Op: "break"}}
+		case "continue":
+			return []*Stmt{{Op: "continue"}}
+		default:
+			if fc.ret.K == kVoid {
+				return []*Stmt{{Op: "return"}}
+			}
+			return []*Stmt{{Op: "return", E: fc.genSub(fc.ret, 1)}}
+		}
+	}
+	mark := len(fc.vars)
+	fc.nested++
+	defer func() { fc.nested--; fc.pop(mark) }()
+	if g.r.Chance(1, 4) {
+		return []*Stmt{{Op: "if", E: fc.genExact(tBool, 1), B1: exit(), B2: exit()}}
+	}
+	return exit()
 }
 
 // sub generates a nested block (optionally binding a new constant variable of type bind first)
